@@ -27,6 +27,7 @@ def dispatch (line : String) : String :=
     | "drain" => cmdDrain args
     | "msg" => cmdMsg args
     | "tcp" => cmdTcp args
+    | "ws" => cmdWs args
     | "frag" => cmdFrag args
     | "sq" => cmdSq args
     | "enc" => cmdEnc args
